@@ -689,6 +689,167 @@ def check_xobject(fail, d, uid, name, spec, xo, lossy_jpeg, lossy_all):
             uid, spec['kind'], spec.get('mode'), xo['match']), d, {'element': uid, 'xobject': xo}, 'c13:lossless')
 
 
+
+# ------------------------------------------------------------------------------------------------ image XObjects:
+# source mode x orientation x options
+
+PRE_Z = ('From Coq Require Import ZArith List Bool.\nRequire Import WV.model.C13XObject.\n'
+         'Import ListNotations.\nOpen Scope Z_scope.\n')
+XMODES = ['L', 'LA', 'RGB', 'RGBA', 'P', '1', 'CMYK', 'I;16']
+XSOURCES = [dict(fmt='png', mode='1'), dict(fmt='png', mode='L'), dict(fmt='png', mode='LA'), dict(fmt='png', mode='RGB'),
+            dict(fmt='png', mode='RGBA'), dict(fmt='png', mode='P'), dict(fmt='png', mode='P', trns=True), dict(fmt='png', mode='I;16'),
+            dict(fmt='jpeg', mode='L'), dict(fmt='jpeg', mode='RGB'), dict(fmt='jpeg', mode='RGB', progressive=True),
+            dict(fmt='jpeg', mode='CMYK', app14=True), dict(fmt='jpeg', mode='CMYK', app14=False),
+            dict(fmt='mpo', mode='RGB')]
+XOPTIONS = [{}, {'optimize_images': True}, {'jpeg_quality': 85}]
+
+
+def x_orientations():
+    """(css value, exif tag or None, expected EXIF-style code 1..8)"""
+    out = [('none', None, 1), ('none', 6, 1), ('from-image', None, 1)]
+    out += [('from-image', e, e) for e in range(1, 9)]
+    table = {(0, False): 1, (1, False): 6, (2, False): 3, (3, False): 8, (0, True): 2, (1, True): 5, (2, True): 4, (3, True): 7}
+    for q in range(4):
+        for flip in (False, True):
+            out.append(('%ddeg%s' % (90 * q, ' flip' if flip else ''), None, table[(q, flip)]))
+    out += [('flip', None, 2), ('-90deg', None, 8), ('450deg flip', 3, 5), ('0.25turn', None, 6)]
+    return out
+
+
+def gen_xobject_docs(rng, k):
+    items = []
+    n = 0
+    for rep in range(k):
+        for src in XSOURCES:
+            for css, exif, code in x_orientations():
+                for opts in XOPTIONS:
+                    if rep and rng.random() < 0.5:
+                        continue
+                    jpeg = src['fmt'] != 'png'
+                    if jpeg:
+                        w, h = rng.choice([(64, 32), (32, 64), (96, 32), (32, 32)])
+                    else:
+                        w, h = rng.choice([(3, 2), (2, 3), (4, 1), (1, 3), (2, 2), (4, 3)])
+                    spec = dict(fmt=src['fmt'], mode=src['mode'], w=w, h=h, seed=rng.randrange(10 ** 6), trns=src.get('trns', False),
+                                app14=src.get('app14', True), exif=exif, progressive=src.get('progressive', False))
+                    items.append(dict(id='x%d' % n, spec=spec, orientation=css, code=code, options=opts))
+                    n += 1
+    docs = []
+    for opts in XOPTIONS:
+        sel = [it for it in items if it['options'] == opts]
+        rng.shuffle(sel)
+        for i in range(0, len(sel), 6):
+            docs.append(dict(items=sel[i:i + 6], options=opts))
+    return docs
+
+
+def zl(px):
+    return '[%s]' % '; '.join('%d' % v for v in px)
+
+
+def coq_xo_case(it, o):
+    spec, p, t = it['spec'], o['painted'], o['truth']
+    jpeg = spec['fmt'] != 'png'
+    cs = {'DeviceGray': 0, 'DeviceRGB': 1, 'DeviceCMYK': 2}.get(p['cs'], 3)
+    tol = 16 if jpeg else (1 if spec['mode'] == 'I;16' else 0)
+    return '((%d%%nat, %s, %s, %s), %d%%nat, (%d, %d), (%d, %d), [%s], %d, (%d%%nat, %s, %s, %d, %d, %d, %s), [%s])' % (
+        XMODES.index(spec['mode']), blit(spec['trns']), blit(spec['app14']), blit(jpeg), it['code'], spec['w'], spec['h'],
+        t['grid'][0], t['grid'][1], '; '.join(zl(x) for x in t['samples']), tol,
+        cs, blit(bool(p['inverted'])), blit(p['smask']), p['declared'][0], p['declared'][1], p['bpc'],
+        blit(p['filter'] == 'DCTDecode'), '; '.join(zl(x) for x in p['samples']))
+
+
+def xobject_prepare(run, docs, outs):
+    cases, meta = [], []
+    seen = set()
+    deferred = []          # reported after the Coq-judged failures (so that those get the replay files)
+    def fail(what, d, it, extra, sig):
+        deferred.append((what, dict(stream='xobject-modes', item=it, options=d['options'], **extra), sig))
+    for d, (st, o) in zip(docs, outs):
+        if st != 'ok':
+            run.fail('xobject_probe raised %s' % (o if st == 'timeout' else (o['type'], o['site'], o['msg'])),
+                     dict(stream='xobject-modes', items=d['items'], options=d['options'], outcome=str(o)[:800]),
+                     signature='crash:%s' % ((o or {}).get('site'),) if st == 'exc' else 'timeout')
+            continue
+        if o['problems'] or o['ndraws'] != o['nlog']:
+            run.fail('PDF problems %s / %d image Do for %d draw calls' % (o['problems'], o['ndraws'], o['nlog']),
+                     dict(stream='xobject-modes', items=d['items'], options=d['options']), signature='c13:xobject-pdf')
+            continue
+        for it in d['items']:
+            spec = it['spec']
+            r = o['items'].get(it['id'])
+            if r is None:
+                fail('image %s (%s %s, image-orientation:%s) was not painted' % (it['id'], spec['fmt'], spec['mode'], it['orientation']),
+                     d, it, {}, 'c13:xobject-missing')
+                continue
+            p = r['painted']
+            broken = 'error' in p or any(len(x) == 0 for x in p.get('samples', [[]]))
+            if broken or p.get('inverted') is None:
+                fail('image XObject for %s %s cannot be decoded / has an odd /Decode: %s' % (spec['fmt'], spec['mode'], p), d, it, {},
+                     'c13:xobject-decode')
+                continue
+            jpeg = spec['fmt'] != 'png'
+            if jpeg and 'jpeg_quality' not in d['options']:
+                if it['code'] == 1 and not d['options'].get('optimize_images') and not r['same_bytes']:
+                    fail('JPEG with identity orientation and no option is not passed through byte for byte', d, it, {},
+                         'c13:jpeg-not-passthrough')
+                if not r['same_bytes'] and p['qtables'] != r['src_qtables']:
+                    if d['options'].get('optimize_images'):
+                        fail('optimize_images (documented lossless) re-quantised JPEG %s' % it['id'], d, it, {},
+                             'c13:optimize-images-jpeg-lossy')
+                    else:
+                        fail('JPEG re-quantised (no lossy option) because of image-orientation:%s / EXIF %s' % (
+                            it['orientation'], spec['exif']), d, it, {}, 'c13:jpeg-requantized-on-orientation')
+            cases.append(coq_xo_case(it, r))
+            meta.append((d, it))
+            seen.add((spec['fmt'], spec['mode'], spec['trns'], spec['app14'], it['orientation'], spec['exif'],
+                      tuple(sorted(d['options']))))
+    return dict(cases=cases, meta=meta, seen=seen, deferred=deferred)
+
+
+def xobject_finish(run, xo, ndocs):
+    try:
+        masks = xo['future'].result()
+    except RuntimeError as exc:
+        run.oblige('corr:xobject-modes', False, str(exc))
+        for what, data, sig in xo['deferred']:
+            run.fail(what, data, signature=sig)
+        return
+    mism = [(m[1]['id'], m[1]['spec'], m[1]['orientation'], m[0]['options']) for m, k in zip(xo['meta'], masks) if k & 1]
+    run.oblige('corr:xobject-modes(XObject attribute model vs the XObject parsed from the PDF)', not mism,
+               'first disagreements: %s' % mism[:3])
+    done = set()
+    for (d, it), k, case in zip(xo['meta'], masks, xo['cases']):
+        spec = it['spec']
+        what = '%s %s%s%s, image-orientation:%s, EXIF %s, options %s' % (
+            spec['fmt'], spec['mode'], ' +tRNS' if spec['trns'] else '', ' (no APP14)' if spec['mode'] == 'CMYK' and not spec['app14'] else '',
+            it['orientation'], spec['exif'], d['options'])
+        if k & 2 and 2 not in done:
+            done.add(2)
+            run.fail('painted samples / dimensions / alpha of the embedded image are not those of the oriented source: ' + what,
+                     dict(stream='xobject-modes', item=it, options=d['options'], coq_case=case, mask=k), signature='c13:xobject-painted')
+        elif k & 8 and not k & 2:
+            run.fail('image-orientation angle applied counter-clockwise: ' + what,
+                     dict(stream='xobject-modes', item=it, options=d['options'], coq_case=case, mask=k),
+                     signature='c13:image-orientation-angle-counterclockwise')
+        if k & 1 and 1 not in done:
+            done.add(1)
+            run.fail('image XObject attributes (ColorSpace, /Decode, SMask, Width/Height, BitsPerComponent, Filter) differ from the '
+                     'model: ' + what, dict(stream='xobject-modes', item=it, options=d['options'], coq_case=case, mask=k),
+                     signature='c13:xobject-attrs')
+    for what, data, sig in xo['deferred']:
+        run.fail(what, data, signature=sig)
+    run.count('xobject-modes', len(xo['cases']), xo['seen'], samples=[xo['cases'][0][:400]] if xo['cases'] else [])
+    run.stream_info('xobject-modes', documents=ndocs,
+                    rule='every source {PNG 1/L/LA/RGB/RGBA/P/P+tRNS/16-bit grey, JPEG L/RGB/progressive RGB/CMYK with and without the Adobe '
+                         'APP14 marker, MPO} x every image-orientation {none, from-image with EXIF 1..8 or none, 0/90/180/270deg with '
+                         'and without flip, flip, negative / >360 / turn angles, angle overriding EXIF} x {no option, optimize_images, '
+                         'jpeg_quality}, each rendered to PDF; the XObject is parsed (pdfread) and judged in Coq: attributes against '
+                         'expected_attrs, painted samples (through /Decode and SMask) against the oriented source (all pixels for '
+                         'PNG, quadrant centres for JPEG);; distinct = (format, mode, tRNS, APP14, '
+                         'orientation, EXIF, options)')
+
+
 # ------------------------------------------------------------------------------------------------ streams
 
 def has_float(out):
@@ -756,7 +917,8 @@ def check(run):
                         'pixel-level losslessness, Pillow, zlib: runtime monitor only (decoded XObject = Pillow decoding of the source)',
                         'the 300x150 fallback is not clipped to the device size (CSS 2.1 "should"); a zero intrinsic ratio raises '
                         '(ZeroDivisionError) and float inf ratios of zero-height rasters are outside the rational model',
-                        'horizontal placement of outside list markers, image-orientation and border-image are not covered']
+                        'horizontal placement of outside list markers and border-image are not covered; JPEG samples are judged at the '
+                        'centres of four constant quadrants (tolerance 16/255), PNG samples exactly']
     jobs = [
         Job('constraint-direct', 'constraint', gen_constraint(rng, 700 * k),
             lambda c, o: '(%s, %s, %s, %s, %s)' % (qlit(F(c['cw'])), qlit(F(c['ch'])), oq(c['ir']), blit(c['cover']), pair_out(o)),
@@ -797,16 +959,20 @@ def check(run):
         'use-references-direct': '1..9 resource dictionaries (page, groups, patterns) naming 1..6 images, processed by '
                                  'pdf._use_references with counting stub images; distinct = (dictionaries, keys, references)'}
     docs = fixed_docs() + [gen_monitor_doc(rng) for _ in range(200 * k)]
+    xdocs = gen_xobject_docs(rng, 3 if thorough else 1)
     # ---- one worker pool for every implementation call
     t0 = time.time()
     allc = [dict(fn=j.impl_fn, case=c) for j in jobs for c in j.cases]
     allc += [dict(fn='render_images', case=dict(images=d['images'], html=d['html'], pdf_options=d['pdf_options'])) for d in docs]
+    allc += [dict(fn='xobject_probe', case=dict(items=[dict(id=i['id'], spec=i['spec'], orientation=i['orientation'])
+                                                       for i in d['items']], options=d['options'])) for d in xdocs]
     outs = common.run_impl('impl_c13', 'dispatch', allc, limit=60, chunksize=4)
     pos = 0
     for j in jobs:
         j.outs = outs[pos:pos + len(j.cases)]
         pos += len(j.cases)
-    mon_outs = outs[pos:]
+    mon_outs = outs[pos:pos + len(docs)]
+    x_outs = outs[pos + len(docs):]
     t1 = time.time()
     # ---- Coq judges, concurrently
     with ThreadPoolExecutor(max_workers=6) as ex:
@@ -816,6 +982,9 @@ def check(run):
         mon = monitor_prepare(run, docs, mon_outs)
         mon['futures'] = [ex.submit(common.eval_cases, 'c13' + tag, PRE, ctype, cases, judge)
                           for tag, cases, meta, ctype, judge in mon['evals']]
+        xo = xobject_prepare(run, xdocs, x_outs)
+        xo['future'] = ex.submit(common.eval_cases, 'c13xo', PRE_Z, 'xo_case', xo['cases'], 'xo_judge')
+    xobject_finish(run, xo, len(xdocs))
     for j in jobs:
         j.finish(run)
         run.stream_info(j.name, rule=rules[j.name])
@@ -892,7 +1061,17 @@ def replay(data):
     d = data.get('data', {})
     stream = d.get('stream')
     rr = _ReplayRun()
-    if stream == 'render-monitor':
+    if stream == 'xobject-modes':
+        items = [d['item']] if 'item' in d else d.get('items', [])
+        doc = dict(items=items, options=d.get('options', {}))
+        outs = common.run_impl('impl_c13', 'xobject_probe', [dict(items=[dict(id=i['id'], spec=i['spec'], orientation=i['orientation'])
+                                                                          for i in items], options=doc['options'])])
+        print('replay: implementation output', str(outs)[:1500])
+        xo = xobject_prepare(rr, [doc], outs)
+        with ThreadPoolExecutor(1) as ex:
+            xo['future'] = ex.submit(common.eval_cases, 'c13rxo', PRE_Z, 'xo_case', xo['cases'], 'xo_judge')
+        xobject_finish(rr, xo, 1)
+    elif stream == 'render-monitor':
         def tup(u):
             u = dict(u)
             for k in ('width', 'height', 'minw', 'minh', 'maxw', 'maxh', 'px', 'py'):
